@@ -6,6 +6,8 @@ import (
 	"encoding/json"
 	"flag"
 	"fmt"
+	"go/types"
+	"golang.org/x/tools/go/ssa"
 	"os"
 	"path/filepath"
 	"runtime/debug"
@@ -430,6 +432,20 @@ func init() {
 		if err != nil {
 			fmt.Println(err)
 			os.Exit(2)
+		}
+		if os.Getenv("LH_DET_DUMP") == "3" {
+			for _, f := range c.ModFns() {
+				for _, b := range f.Blocks {
+					for _, ins := range b.Instrs {
+						if ta, ok := ins.(*ssa.TypeAssert); ok && !ta.CommaOk {
+							if it, ok := ta.X.Type().Underlying().(*types.Interface); ok && it.NumMethods() == 0 {
+								fmt.Println("TA", c.Pos(ta.Pos()), fnKey(f), ta.AssertedType.String(), describeValue(ta.X))
+							}
+						}
+					}
+				}
+			}
+			os.Exit(0)
 		}
 		if os.Getenv("LH_DET_DUMP") == "2" {
 			e := newDetEngine(c)
